@@ -158,6 +158,7 @@ qb_log_thread_start(void)
 	if (res != 0) {
 		wthread_active = QB_FALSE;
 		(void)qb_thread_lock_destroy(logt_wthread_lock);
+		logt_wthread_lock = NULL;
 		return -res;
 	}
 	sem_wait(&logt_thread_start);
@@ -309,6 +310,9 @@ qb_log_thread_stop(void)
 		pthread_join(logt_thread_id, NULL);
 	}
 	(void)qb_thread_lock_destroy(logt_wthread_lock);
+	logt_wthread_lock = NULL;
+	wthread_active = QB_FALSE;
+	wthread_should_exit = QB_FALSE;
 	sem_destroy(&logt_print_finished);
 	sem_destroy(&logt_thread_start);
 }
